@@ -8,6 +8,10 @@ correspond HM+X   every stage of RectClip64::Execute read through private access
                   edges_[8] after ExecuteInternal, after CheckEdges, after the four TidyEdges, and the public RectClip result)
                   == the extracted model, exactly, on every generated case; the translated leaf functions natively vs extracted
                   on boundary grids; PointInPolygon / Path1ContainsPath2 natively vs model.
+           multi  2-4 polygons for one rectangle in ONE call (families that leave state behind: arches hugging the outside of the rectangle
+                  past 1-3 corners without crossing, followed by crossing paths, ...) and two Execute calls on one RectClip64 object:
+                  result == concatenation of the results of each path alone on a fresh object (each of those is a case of the SPEC+O
+                  stream) == extracted model rect_clip_paths (C08_paths_app)
            SPEC+O the property itself on the implementation's output, each polygon separately, decided by the extracted verified
                   checker (command CHK of bin/oracle_rectclip), exact integer arithmetic:
                     every output vertex within rect + 1;
@@ -37,6 +41,9 @@ Failure modes (classifier keys):
   clip.wn.simple                   winding clause, simple input, strictly inside
   clip.wn.parity                   winding clause, non-simple input without an edge along a side, strictly inside
   clip.outside-covered             output covers a point outside the rectangle (simple input) / odd parity there (non-simple)
+  clip.multi-path-state            "for each input polygon separately": RectClip(rect, {p1..pk}) in one call, or two Execute calls on one RectClip64
+                                   object, differ from the concatenation of the results of each path alone on a fresh object (state such as
+                                   start_locs_ survives a path)
   corr.*                           model / implementation disagreement (correspondence break), tie-break:*, proof-break:*
 """
 import itertools, json, os
@@ -160,8 +167,8 @@ def isqrt_dir(rng, k, n):
     return [(u, -1000), (1000, u), (-u, 1000), (-1000, -u)][side]
 
 
-def gen_case(rng, style, mag):
-    r = rand_rect(rng, mag)
+def gen_case(rng, style, mag, rect=None):
+    r = list(rect) if rect else rand_rect(rng, mag)
     l, t, rr, b = r
     w, h = rr - l, b - t
     cx, cy = (l + rr) // 2, (t + b) // 2
@@ -300,6 +307,69 @@ def gen_case(rng, style, mag):
     if r[1] >= r[3]:
         r[1] = r[3] - 1
     return dict(rect=list(r), path=[list(p) for p in P], style=style, mag=mag)
+
+
+def ring8(r, g):
+    """mid-left, top-left, mid-top, top-right, mid-right, bottom-right, mid-bottom, bottom-left of the rectangle grown by g"""
+    l, t, rr, b = r
+    cx, cy = (l + rr) // 2, (t + b) // 2
+    return [(l - g, cy), (l - g, t - g), (cx, t - g), (rr + g, t - g), (rr + g, cy), (rr + g, b + g), (cx, b + g), (l - g, b + g)]
+
+
+def gen_group_path(rng, r, kind, mag):
+    """a polygon for the GIVEN rectangle: families whose ExecuteInternal leaves state behind when Execute does not clear it"""
+    l, t, rr, b = r
+    w, h = rr - l, b - t
+    if kind == 'hug':
+        # a thick arch round the outside of the rectangle past 1..3 corners, not touching it (g1 >= 1) or touching (g1 = 0):
+        # it visits 2..4 outside regions, never crosses, its bounds overlap the rectangle
+        k = rng.choice([1, 2, 2, 3, 3, 3])
+        s0 = rng.below(4)
+        g1 = rng.choice([0, 1, 1, 2, 3, max(1, w // 3), max(1, mag // 10)])
+        g2 = g1 + rng.choice([1, 2, 5, max(1, w // 2), max(1, mag // 5)])
+        idx = [(2 * s0 + j) % 8 for j in range(2 * k + 1)]
+        outer, inner = ring8(r, g2), ring8(r, g1)
+        P = [outer[i] for i in idx] + [inner[i] for i in reversed(idx)]
+        if rng.chance(1, 3):      # slide the two ends along their sides
+            d = rng.range(-max(1, min(w, h) // 3), max(1, min(w, h) // 3))
+            mv = lambda p, i: (p[0] + (d if i in (2, 6) else 0), p[1] + (d if i in (0, 4) else 0))
+            P[0], P[-1] = mv(P[0], idx[0]), mv(P[-1], idx[0])
+    elif kind == 'poke':
+        # a polygon that starts and ends outside on one side and reaches into the rectangle
+        s0 = rng.below(4)
+        out = rng.choice([1, 2, max(1, h // 2), max(1, mag // 4)])
+        dep = rng.choice([0, 1, max(1, h // 2), h, h + 1, h + out])
+        a = rng.range(0, max(0, w - 1))
+        bb = rng.range(a, w)
+        if rng.chance(1, 4):
+            a, bb = 0, w
+        P = [(l + a, b + out), (l + a, b - dep), (l + bb, b - dep), (l + bb, b + out)]       # from below (bottom side)
+        cx2, cy2 = l + rr, t + b                      # doubled centre: rotate by quarter turns about it (exact for squares only)
+        if w == h:
+            for _ in range(s0):
+                P = [((cx2 - (2 * y - cy2)) // 2, (cy2 + (2 * x - cx2)) // 2) for x, y in P]
+        elif s0 % 2 == 1:
+            P = [(x, t + b - y) for x, y in P]        # from above
+    else:
+        return gen_case(rng, kind, mag, rect=r)['path']
+    P = [(clamp(x), clamp(y)) for x, y in P]
+    if rng.chance(1, 2):
+        P.reverse()
+    k0 = rng.below(len(P))
+    return [list(p) for p in P[k0:] + P[:k0]]
+
+
+GROUP_KINDS = ['hug', 'hug', 'hug', 'poke', 'poke', 'star', 'enclose', 'spiral', 'snake', 'rectil', 'corner']
+
+
+def gen_group(rng, mag):
+    """2..4 polygons for one rectangle; a fruitless path (hug) is followed by a crossing one more often than not"""
+    r = rand_rect(rng, mag)
+    n = rng.choice([2, 2, 3, 3, 4])
+    kinds = [rng.choice(GROUP_KINDS) for _ in range(n)]
+    if rng.chance(2, 3):
+        kinds[rng.below(n - 1)] = 'hug'
+    return [dict(rect=list(r), path=gen_group_path(rng, r, k, mag), style='group:' + k, mag=mag) for k in kinds]
 
 
 STYLES = ['star', 'enclose', 'spiral', 'snake', 'rectil', 'corner', 'star', 'snake'] + C09.STYLES
@@ -577,7 +647,7 @@ def leaf_tie(ctx, tools, n_random):
 
 
 # ----------------------------------------------------------------------------- run
-def generate(ctx, n_random, lat_full, lat_sample):
+def generate(ctx, n_random, lat_full, lat_sample, n_groups):
     rng = ctx.rng
     cases = load_corpus()
     ncorp = len(cases)
@@ -605,14 +675,113 @@ def generate(ctx, n_random, lat_full, lat_sample):
     grng = rng.fork(2)
     for i in range(n_random):
         cases.append(gen_case(grng, STYLES[i % len(STYLES)], MAGS[(i // len(STYLES)) % len(MAGS)]))
-    return cases, ncorp
+    # groups of polygons clipped in ONE call; every member is also a case of its own (judged by the single-polygon specification)
+    groups = []
+    mrng = rng.fork(6)
+    for i in range(n_groups):
+        g = gen_group(mrng, MAGS[i % len(MAGS)])
+        groups.append(list(range(len(cases), len(cases) + len(g))))
+        cases += g
+    return cases, ncorp, groups
 
 
-def explore(ctx, tools, n_random, lat_full, lat_sample, asan_n, npts):
-    cases, ncorp = generate(ctx, n_random, lat_full, lat_sample)
-    ctx.log('%d polygons (%d corpus, lattice paths of %s vertices exhaustive + %s sampled, %d random/scaled)'
-            % (len(cases), ncorp, lat_full, lat_sample, n_random + n_random // 6))
+def multi_cmds(rect, paths, split):
+    """RectClip(rect, paths) in one call, and Execute(paths[:split]); Execute(paths[split:]) on one object"""
+    return ['CLIP %s %s' % (C09.rect_str(rect), vf.fmt_paths(paths)),
+            'CLIP2 %s %s %s' % (C09.rect_str(rect), vf.fmt_paths(paths[:split]), vf.fmt_paths(paths[split:]))]
+
+
+def parse_clip2(s):
+    t = s.split()
+    if not t or t[0] != 'OK' or '|' not in t:
+        return None
+    k = t.index('|')
+    a, _ = vf.parse_paths(t, 1)
+    b, _ = vf.parse_paths(t, k + 1)
+    return a + b
+
+
+def multi_eval(tools, rect, paths, split):
+    """-> (one-call result, two-call result, [result of each path alone on a fresh object]) ; None where the run died"""
+    cmds = multi_cmds(rect, paths, split) + ['CLIP %s 1 %d %s' % (C09.rect_str(rect), len(p), vf.fmt_path(p)) for p in paths]
+    o = tools.impl(cmds)
+    return C09.parse_ok_paths(o[0]), parse_clip2(o[1]), [C09.parse_ok_paths(x) for x in o[2:]]
+
+
+def multi_bad(res):
+    one, two, singles = res
+    if one is None or two is None or any(x is None for x in singles):
+        return True
+    exp = [p for x in singles for p in x]
+    return one != exp or two != exp
+
+
+def check_groups(ctx, tools, cases, ev, groups):
+    """result(paths) must be the concatenation, in input order, of result(each path alone on a fresh object) -- for one call on all
+    paths and for two Execute calls on one RectClip64 object; the model of the call (rect_clip_paths) must agree as well"""
+    if not groups:
+        return
+    rng = ctx.rng.fork(8)
+    cmds, meta = [], []
+    for g in groups:
+        paths = [cases[i]['path'] for i in g]
+        split = rng.range(1, len(g) - 1) if len(g) > 1 else 1
+        cmds += multi_cmds(cases[g[0]]['rect'], paths, split)
+        meta.append((g, split))
+    a = tools.impl(cmds)
+    b = tools.model(cmds)
+    ctx.count('evaluations', len(cmds))
+    ctx.count('multi_path_calls', len(cmds))
+    nbad = nmm = nstate = 0
+    for k, (g, split) in enumerate(meta):
+        one, two = C09.parse_ok_paths(a[2 * k]), parse_clip2(a[2 * k + 1])
+        singles = [ev[i]['out'] for i in g]
+        if any(x is None for x in singles) or any(ev[i]['impl'] == 'SKIP' for i in g):
+            continue
+        exp = [[tuple(v) for v in p] for x in singles for p in x]
+        ctx.hist('group_size', len(g))
+        if sum(1 for x in singles if x) >= 1 and any(not x and ev[i]['impl'].split()[1:2] == ['0'] for i, x in zip(g, singles)):
+            nstate += 1        # a member that went through ExecuteInternal and produced nothing, next to one that produced output
+        norm = lambda ps: None if ps is None else [[tuple(v) for v in p] for p in ps]
+        if norm(one) != exp or norm(two) != exp:
+            nbad += 1
+            if nbad == 1:
+                rect = cases[g[0]]['rect']
+                paths = [cases[i]['path'] for i in g]
+                # shrink: drop paths while the call still differs from the concatenation of the single results
+                cur, sp = paths, split
+                changed = True
+                while changed and len(cur) > 1:
+                    changed = False
+                    for j in range(len(cur)):
+                        cand = cur[:j] + cur[j + 1:]
+                        csp = min(max(1, sp - (1 if j < sp else 0)), max(1, len(cand) - 1))
+                        if len(cand) >= 1 and multi_bad(multi_eval(tools, rect, cand, csp)):
+                            cur, sp, changed = cand, csp, True
+                            break
+                r1, r2, rs = multi_eval(tools, rect, cur, sp)
+                ctx.violation('clip.multi-path-state',
+                              'RectClip does not treat each input polygon separately: rect=%s paths=%s: one call returns %s, Execute(first %d); Execute(rest) on one '
+                              'object returns %s, but each path alone on a fresh object gives %s' % (rect, cur, r1, sp, r2, rs),
+                              replay=dict(kind='multi', rect=rect, paths=cur, split=sp, original=dict(paths=paths, split=split)))
+        if a[2 * k] != b[2 * k] or a[2 * k + 1] != b[2 * k + 1]:
+            nmm += 1
+            if nmm == 1 and nbad == 0:
+                ctx.violation('corr.clip-paths-model', 'RectClip on several paths differs from the Coq model rect_clip_paths: `%s` -> implementation `%s` model `%s`'
+                              % (cmds[2 * k][:600], a[2 * k][:400], b[2 * k][:400]),
+                              replay=dict(kind='multi', rect=cases[g[0]]['rect'], paths=[cases[i]['path'] for i in g], split=split), nofail=True)
+    ctx.cov['multi_path_groups'] = len(groups)
+    ctx.cov['multi_path_groups_with_fruitless_and_fruitful_member'] = nstate
+    ctx.cov['multi_path_failures'] = nbad
+    ctx.cov['multi_path_model_mismatches'] = nmm
+
+
+def explore(ctx, tools, n_random, lat_full, lat_sample, asan_n, npts, n_groups=0):
+    cases, ncorp, groups = generate(ctx, n_random, lat_full, lat_sample, n_groups)
+    ctx.log('%d polygons (%d corpus, lattice paths of %s vertices exhaustive + %s sampled, %d random/scaled, %d in %d multi-path groups)'
+            % (len(cases), ncorp, lat_full, lat_sample, n_random + n_random // 6, sum(len(g) for g in groups), len(groups)))
     ev = evaluate(tools, cases, ctx.rng.fork(5), npts, lattice=True)
+    check_groups(ctx, tools, cases, ev, groups)
     ctx.count('evaluations', len(cases))
     ctx.count('api_cases', len(cases))
     seen, nontriv, mism, nfail, shrunk = set(), 0, [], 0, set()
@@ -678,7 +847,7 @@ def run(ctx):
     ctx.cov['rule'] = ('closed lattice paths on the 5x5 lattice (unit 8) against the central 2x2-cell rectangle: ALL 25^3 paths of 3 vertices (every starting point) in the quick tier, all of 3 and 4 vertices '
                        '(406k) in the thorough tier, seeded samples of the 4/5/6-vertex paths beyond that (the full <= 6 vertex scope, 2.5e8 paths, is not enumerated); exact scalings/translations of those up to |coords| 2^40; seeded random polygons in 17 styles (star-shaped simple polygons '
                        'snapped to the side lines, rings enclosing the rectangle, spirals winding around it 1-4 times, thick open rings and combs (simple), rectilinear walks on the side lines, through corners, '
-                       'and the 9 polyline styles of C09 closed up) x 8 magnitudes up to 2^40; non-trivial = no bounds shortcut taken and at least one sample point qualifies (strictly inside or outside the '
+                       'and the 9 polyline styles of C09 closed up) x 8 magnitudes up to 2^40; groups of 2-4 polygons for one rectangle (arches round the outside past 1-3 corners, polygons poking in from one side, and the styles above) clipped in one call and in two Execute calls on one object, every member also judged alone; non-trivial = no bounds shortcut taken and at least one sample point qualifies (strictly inside or outside the '
                        'rectangle and > 2 units from the path); distinct by input')
     pr = vf.coq_props(ctx, 'C08')
     broken = not pr['ok']
@@ -687,13 +856,13 @@ def run(ctx):
     lm = leaf_tie(ctx, tools, 8000 if ctx.quick else 60000)
     ctx.log('leaf functions: %d mismatches' % len(lm))
     if ctx.quick and not broken and not lm and not tools.tie_error:
-        mism = explore(ctx, tools, 24000, [3], [(4, 20000), (5, 6000), (6, 6000)], 3000, 32)
+        mism = explore(ctx, tools, 16000, [3], [(4, 18000), (5, 6000), (6, 6000)], 3000, 32, n_groups=4500)
     elif ctx.quick:
         # a proof, tie or leaf correspondence break: search for a failing input with a larger budget
         ctx.log('break (proof %s, harness %s, leaf %d): searching with a larger budget' % (broken, bool(tools.tie_error), len(lm)))
-        mism = explore(ctx, tools, 100000, [3], [(4, 80000), (5, 30000), (6, 30000)], 3000, 40)
+        mism = explore(ctx, tools, 100000, [3], [(4, 80000), (5, 30000), (6, 30000)], 3000, 40, n_groups=20000)
     else:
-        mism = explore(ctx, tools, 400000, [3, 4], [(5, 250000), (6, 250000)], 30000, 64)
+        mism = explore(ctx, tools, 400000, [3, 4], [(5, 250000), (6, 250000)], 30000, 64, n_groups=80000)
     found = bool(ctx.violations) or bool(ctx.known_hits)
     if lm:
         l, x, y = lm[0]
@@ -730,6 +899,13 @@ def replay(ctx, path):
             ctx.violation(key, 'replayed: ' + describe(c, d), replay=rp)
         if d['mismatch'] and not d['fail']:
             ctx.violation('corr.clip-model', 'replayed: implementation `%s` model `%s`' % (d['impl'][:700], (d['model'] or '')[:700]), replay=rp, nofail=True)
+    elif rp.get('kind') == 'multi':
+        res = multi_eval(tools, rp['rect'], rp['paths'], rp.get('split', 1))
+        ctx.log('one call %s ; two calls %s ; alone %s' % res)
+        ctx.count('evaluations', 1)
+        if multi_bad(res):
+            ctx.violation('clip.multi-path-state', 'replayed: rect=%s paths=%s: one call %s, two calls on one object %s, each path alone %s'
+                          % (rp['rect'], rp['paths'], res[0], res[1], res[2]), replay=rp)
     elif rp.get('kind') == 'leaf':
         a = tools.impl([rp['line']])[0]
         b = tools.model([rp['line']])[0]
